@@ -186,7 +186,10 @@ def r2(ctx):
             for a in fc.args[1:]:
                 if isinstance(a, Tup) and len(a.items) == 2 and isinstance(a.items[0], Const) and a.items[0].v == 'text':
                     txt = a.items[1]
-            if not (isinstance(txt, Obj) and txt.path == 'region.text'):
+            from ..vg import walk_terms as _wt
+            leaves = {x.path for x in _wt(txt) if isinstance(x, Obj) and x.path} if txt is not None else set()
+            if not (isinstance(txt, Obj) and txt.path == 'region.text') and leaves != {'region.text'}:
+                # (a quoted / escaped rendering of the text field — built from region.text alone — is the text field)
                 probs.append(f'the text written is {show(txt, 60)}, not the region\'s text field')
         if probs:
             ctx.bad(construct, 'vocabulary', '; '.join(probs), ser.loc())
@@ -306,6 +309,59 @@ def _tok_of(t):
     return None, scale
 
 
+def _same_frame(t, _d=0):
+    """the term in the scenario "the region's own frame is the output frame": every `is_equivalent_frame` test true, so
+    that a correction for a frame change drops out and the slot can be compared with the field itself."""
+    from ..vg import BoolT, Cmp
+    if _d > 80:
+        return t
+    if isinstance(t, Ite):
+        c, neg = t.cond, False
+        while isinstance(c, BoolT) and c.op in ('not', 'truthy') and len(c.args) == 1:
+            neg ^= (c.op == 'not')
+            c = c.args[0]
+        if isinstance(c, App) and 'is_equivalent_frame' in show(c, 300) and 'ite(' not in show(c, 300):
+            return _same_frame(t.b if neg else t.a, _d + 1)
+        if isinstance(c, Ite):
+            # a truthiness test of a join: push the test into the arms
+            inner = _same_frame(c, _d + 1)
+            if isinstance(inner, Const):
+                val = bool(inner.v) ^ neg
+                return _same_frame(t.a if val else t.b, _d + 1)
+            if isinstance(inner, App) and inner.name.endswith('Quantity'):
+                return _same_frame(t.b if neg else t.a, _d + 1)      # a quantity object is truthy only if non-zero: undecided
+        if isinstance(c, Cmp) and c.op in ('is', 'isnot') and isinstance(c.rhs, Const) and c.rhs.v is None:
+            lhs = _same_frame(c.lhs, _d + 1)
+            if isinstance(lhs, Const) and lhs.v is None:
+                val = (c.op == 'is') ^ neg
+                return _same_frame(t.a if val else t.b, _d + 1)
+        return Ite(t.cond, _same_frame(t.a, _d + 1), _same_frame(t.b, _d + 1))
+    if isinstance(t, App):
+        return App(t.name, tuple(_same_frame(a, _d + 1) for a in t.args))
+    if isinstance(t, Tup):
+        return Tup(tuple(_same_frame(a, _d + 1) for a in t.items), t.kind)
+    return t
+
+
+def _renorm(t):
+    """fold the arithmetic that stayed unevaluated because its operand was a join when it was built:
+    float(x), x.to(unit).value on an angle symbol, and * / by numbers."""
+    if isinstance(t, App):
+        a = tuple(_renorm(x) for x in t.args)
+        if t.name == 'float' and len(a) == 1 and is_num(a[0]):
+            return a[0]
+        if t.name == 'attr:value' and len(a) == 1 and isinstance(a[0], App) and a[0].name == 'apply' and len(a[0].args) == 2 \
+                and isinstance(a[0].args[0], App) and a[0].args[0].name == 'attr:to' and isinstance(a[0].args[1], Const):
+            q = unq(a[0].args[0].args[0])
+            unit = {'deg': DEG, 'rad': ANG, 'arcsec': DEG / 3600, 'arcmin': DEG / 60}.get(a[0].args[1].v)
+            if is_num(q) and unit is not None:
+                return q / unit
+        if t.name in ('binop:Mult', 'binop:Div') and len(a) == 2 and is_num(a[0]) and is_num(a[1]):
+            return a[0] * a[1] if t.name == 'binop:Mult' else a[0] / a[1]
+        return App(t.name, a)
+    return t
+
+
 def _spine(t):
     """the terms along the scale/value spine of a reader value (outermost first)."""
     cur = t
@@ -369,7 +425,7 @@ def r3(ctx):
                     if j >= len(args):
                         probs.append(f'{f} is read from slot {j}, which the writer does not fill')
                         continue
-                    warg = unq(args[j])
+                    warg = unq(_renorm(_same_frame(args[j])))
                     base = sp.Symbol(f'region.{f}', positive=(f != 'angle'), real=True)
                     if not is_num(warg):
                         raise AnalysisError('C11.R3', construct, f'written value for slot {j} not numeric: {show(warg, 100)}')
